@@ -181,6 +181,7 @@ theorem varM_of_varOf {c0 : Node} {v : List Nat} (h : varOf c0 = some v) : varM 
 inductive BindShape where
   | bind (c0 st : Node) (var : List Nat)                                          -- `except e { st }` / `except as e { st }`
   | typedAs (s0 : Node) (ss : List Node) (a av : Node) (t : Ecal.Lex.Tok) (st : Node)   -- `except "T0", … as e { st }`
+  | typedIdent (s0 : Node) (ss : List Node) (a st : Node)                         -- `except "T0", … e { st }`: nothing bound
   | none
 
 def bindingShape (c : Node) : BindShape :=
@@ -200,6 +201,7 @@ def bindingShape (c : Node) : BindShape :=
            | some t => .typedAs s0 ss a av t st
            | none => .none)
         | _ => .none
+      else if a.name = "identifier" ∧ st.name = "statements" then .typedIdent s0 ss a st
       else .none
     | _, _ => .none
   | none => .none
@@ -217,13 +219,8 @@ theorem bindingShape_bind {c c0 st : Node} {v : List Nat} (h : bindingShape c = 
         cases h
         exact ⟨by simpa using allSome_eq _ _ hk, hns, varM_of_varOf hv⟩
       · cases h
-  · split at h
-    · split at h
-      · split at h
-        · split at h <;> cases h
-        · cases h
-      · cases h
-    · cases h
+  · repeat' split at h
+    all_goals cases h
   · cases h
 
 theorem bindingShape_typedAs {c s0 a av st : Node} {ss : List Node} {t : Ecal.Lex.Tok}
@@ -232,9 +229,8 @@ theorem bindingShape_typedAs {c s0 a av st : Node} {ss : List Node} {t : Ecal.Le
       a.children = [some av] ∧ av.tok = some t ∧ st.name = "statements" := by
   unfold bindingShape at h
   split at h
-  · split at h
-    · cases h
-    · split at h <;> cases h
+  · repeat' split at h
+    all_goals cases h
   · rename_i _ kids _ hk
     split at h
     · rename_i s0' ss' a' st' htw hdw
@@ -253,7 +249,33 @@ theorem bindingShape_typedAs {c s0 a av st : Node} {ss : List Node} {t : Ecal.Le
             simpa using mem_takeWhile_p _ _ _ this
           · cases h
         · cases h
-      · cases h
+      · split at h <;> cases h
+    · cases h
+  · cases h
+
+theorem bindingShape_typedIdent {c s0 a st : Node} {ss : List Node} (h : bindingShape c = .typedIdent s0 ss a st) :
+    c.children = ((s0 :: ss) ++ [a, st]).map some ∧ (∀ x ∈ s0 :: ss, x.name = "string") ∧ a.name = "identifier" ∧
+      st.name = "statements" := by
+  unfold bindingShape at h
+  split at h
+  · repeat' split at h
+    all_goals cases h
+  · rename_i _ kids _ hk
+    split at h
+    · rename_i s0' ss' a' st' htw hdw
+      split at h
+      · repeat' split at h
+        all_goals cases h
+      · split at h
+        · rename_i hcond
+          cases h
+          have hkids : kids = (s0 :: ss) ++ [a, st] := by
+            rw [← List.takeWhile_append_dropWhile (p := (·.name == "string")) (l := kids), htw, hdw]
+          refine ⟨by rw [allSome_eq _ _ hk, hkids], ?_, hcond.1, hcond.2⟩
+          intro x hx
+          have : x ∈ kids.takeWhile (·.name == "string") := by rw [htw]; exact hx
+          simpa using mem_takeWhile_p _ _ _ this
+        · cases h
     · cases h
   · cases h
 
@@ -284,7 +306,12 @@ def clauseOfNode (g : Nat → Node → Stmt) (f'' sc : Nat) (c : Node) (rest : C
           let b ← typedMatch (errType e) bytesToString ((s0 :: ss).map fun ch => eval f'' sc ch)
           pure (.bool b))
         (fun e => bindBody g sc c st t.val e) rest
-    | .none => .opaque (exceptHandler (f''+1) sc c) rest    -- `"T" e` and anything unexpected: a whole handler
+    | .typedIdent s0 ss _ st =>
+      .clause (fun e => do
+          let b ← typedMatch (errType e) bytesToString ((s0 :: ss).map fun ch => eval f'' sc ch)
+          pure (.bool b))
+        (fun _ => clauseBody g sc c st) rest
+    | .none => .opaque (exceptHandler (f''+1) sc c) rest    -- anything unexpected: a whole handler
 
 /-- the except clauses of a try node, in source order -/
 def clauseStmts (g : Nat → Node → Stmt) (f'' sc : Nat) : List Node → Clauses
@@ -325,6 +352,14 @@ theorem handlers_clauseOfNode (g : Nat → Node → Stmt) (f'' sc : Nat) (c : No
       congr 1; funext e
       rw [exceptHandler_typed_as f'' sc c s0 a av st t ss e hc hstr ha hac hat hst]
       simp only [bind_assoc, pure_bind, bindErrThen_eq]
+      congr 1; funext b
+      cases b <;> simp
+    | typedIdent s0 ss a st =>
+      obtain ⟨hc, hstr, ha, hst⟩ := bindingShape_typedIdent hb
+      simp only [Impl.handlers, clauseBody, Impl.exec, hg]
+      congr 1; funext e
+      rw [exceptHandler_typed_ident f'' sc c s0 a st ss e hc hstr ha hst]
+      simp only [bind_assoc, pure_bind]
       congr 1; funext b
       cases b <;> simp
     | none => simp [Impl.handlers]
